@@ -31,3 +31,4 @@ mk F18 "$(sha 'rounding gives the same result')"
 # F4: the handler; reverting it alone leaves the later guards inside the helper, so revert the dependants with it
 mk F4 "$(sha 'repeated squaring of a host integer')" "$(sha 'running out of memory in an operator')" "$(sha 'an integer power with a huge exponent')" "$(sha 'booleans are not numbers')" "$(sha 'arithmetic failures in operators')"
 mk F19 "$(sha 'non-finite or circular invalid arguments')"
+mk F20 "$(sha 'a failing function call with debug on and logFn set to None')"
